@@ -187,7 +187,7 @@ func (w *MarkdownWriter) writeQuote(para *document.Paragraph) error {
 
 	lines := strings.Split(text, "\n")
 	for _, line := range lines {
-		w.output.WriteString("> " + escapeBlockStart(strings.Trim(line, " ")) + "\n")
+		w.output.WriteString("> " + escapeBlockStart(strings.TrimSpace(line)) + "\n")
 	}
 	w.output.WriteString("\n")
 
@@ -227,7 +227,7 @@ func (w *MarkdownWriter) writeListItem(para *document.Paragraph) error {
 		marker = "1."
 	}
 
-	w.output.WriteString(marker + " " + escapeBlockStart(strings.Trim(text, " ")) + "\n")
+	w.output.WriteString(marker + " " + escapeBlockStart(strings.TrimSpace(text)) + "\n")
 	w.inList = true
 
 	return nil
@@ -240,8 +240,8 @@ func (w *MarkdownWriter) writeNormalParagraph(para *document.Paragraph) error {
 		// 空段落不携带内容：不输出（多余的空行在再次导入时也不会保留）
 		return nil
 	}
-	// 段落首尾的空格在Markdown中不保留（行尾两个空格还会被解析为强制换行）
-	text = escapeBlockStart(strings.Trim(text, " "))
+	// 段落首尾的空白在Markdown中不保留（开头的制表符会被解析为缩进代码块，行尾两个空格为强制换行）
+	text = escapeBlockStart(strings.TrimSpace(text))
 
 	// 处理长行换行
 	if w.opts.WrapLongLines && len(text) > w.opts.MaxLineLength {
